@@ -66,7 +66,8 @@ type Obs struct {
 	Delete   []int64          `json:"delete"`
 	// Same: further finishers that must touch exactly the selected rows (Pluck, Scan into another
 	// type, Rows, FindInBatches, Updates(map), UpdateColumn), in the order of sameKinds;
-	// One: First / Last / Take, the id of the record returned ([] = ErrRecordNotFound)
+	// One: single-record reads: kind (0 First, 1 Last, 2 Take / Find into one record) followed by
+	// the id of the record returned (nothing = ErrRecordNotFound / no row)
 	Same [][]int64 `json:"same"`
 	One  [][]int64 `json:"one"`
 	Errs []string  `json:"errs"`
@@ -274,17 +275,49 @@ func (e *env) run(orig Input) Obs {
 			default:
 				err = tx.Take(&t, inline...).Error
 			}
+			code := map[string]int64{"first": 0, "last": 1, "take": 2}[k]
 			if err == gorm.ErrRecordNotFound {
-				o.One = append(o.One, []int64{})
+				o.One = append(o.One, []int64{code})
 			} else {
 				fail(k, err)
-				o.One = append(o.One, []int64{t.ID})
+				o.One = append(o.One, []int64{code, t.ID})
 			}
 		}
 	}
 	// Update marks rows; AllowGlobalUpdate so that condition-free chains run too
 	if orig.PK != 0 {
 		in = orig // the primary-key unit now comes from the model value
+	}
+	if orig.PK != 0 && orig.PK2 == 0 {
+		// reads whose destination carries the key (with and without an explicit, different Model)
+		for _, explicit := range []bool{false, true} {
+			for _, k := range []string{"first", "take", "last", "find"} {
+				dst := whr.T{ID: orig.PK}
+				tx, inline := build()
+				if explicit {
+					tx = tx.Model(&whr.T{})
+				}
+				var res *gorm.DB
+				switch k {
+				case "first":
+					res = tx.First(&dst, inline...)
+				case "take":
+					res = tx.Take(&dst, inline...)
+				case "last":
+					res = tx.Last(&dst, inline...)
+				default:
+					res = tx.Find(&dst, inline...)
+				}
+				code := map[string]int64{"first": 0, "last": 1, "take": 2, "find": 2}[k]
+				switch {
+				case res.Error == gorm.ErrRecordNotFound || (res.Error == nil && res.RowsAffected == 0):
+					o.One = append(o.One, []int64{code})
+				default:
+					fail(k+"_destkey", res.Error)
+					o.One = append(o.One, []int64{code, dst.ID})
+				}
+			}
+		}
 	}
 	tx, inline = build()
 	if len(inline) > 0 {
